@@ -167,6 +167,12 @@ def plan_fn(ctx, r, quick):
     return [make_spec(r.fork(), op, m, quick, force={"leg": leg} if leg else None) for op, m, leg in plan]
 
 
+def replay_case(ctx, replay):
+    """check.py replay <file>: re-run exactly the recorded case on the implementation and the model"""
+    ctx.replay = replay
+    correspond(ctx)
+
+
 def correspond(ctx):
     _ll.generic_correspond(ctx, "c10_lin.cpp", EXE, "C10", plan_fn, build_line, label, what_text,
                            min_points=lambda s: s["D"] + 3)
